@@ -119,12 +119,15 @@ func (c *Channel) withdrawSubChannel(ctx context.Context, sub *Channel) error {
 	return errors.WithMessage(err, "update parent channel")
 }
 
-func (c *Channel) registerSubChannelFunding(id channel.ID, alloc []channel.Bal) {
+func (c *Channel) registerSubChannelFunding(id channel.ID, bals channel.Balances) {
 	filter := func(cu ChannelUpdate) bool {
-		expected := *channel.NewSubAlloc(id, alloc, nil)
-		_, containedBefore := c.machine.State().SubAlloc(expected.ID)
+		cur := c.machine.State()
+		expected := *channel.NewSubAlloc(id, bals.Sum(), nil)
+		_, containedBefore := cur.SubAlloc(expected.ID)
 		subAlloc, containedAfter := cu.State.SubAlloc(expected.ID)
-		return !containedBefore && containedAfter && expected.Equal(&subAlloc) == nil
+		return !containedBefore && containedAfter && expected.Equal(&subAlloc) == nil &&
+			cur.Balances.AssertGreaterOrEqual(bals) == nil && cur.Balances.Sub(bals).Equal(cu.State.Balances) &&
+			lockedWithout(cu.State.Locked, cur.Locked, id)
 	}
 	ui := newUpdateInterceptor(filter)
 	c.subChannelFundings.Register(id, ui)
@@ -136,7 +139,8 @@ func (c *Channel) registerSubChannelSettlement(id channel.ID, bals [][]channel.B
 		_, containedAfter := cu.State.SubAlloc(id)
 		equalBalances := c.machine.State().Balances.Add(bals).Equal(cu.State.Balances)
 
-		return containedBefore && !containedAfter && equalBalances
+		return containedBefore && !containedAfter && equalBalances &&
+			lockedWithout(c.machine.State().Locked, cu.State.Locked, id)
 	}
 	ui := newUpdateInterceptor(filter)
 	c.subChannelWithdrawals.Register(id, ui)
